@@ -214,6 +214,12 @@ func (a *SparseInt64Matrix) Set(b ConstMatrix) {
     i, j := it.Index()
     it.Get().Set(b.ConstAt(i, j))
   }
+  // the loop above visits only the entries that already exist in a,
+  // copy also those entries of b for which a has no entry yet
+  for it := b.ConstIterator(); it.Ok(); it.Next() {
+    i, j := it.Index()
+    a.AT(i, j).Set(it.GetConst())
+  }
 }
 func (matrix *SparseInt64Matrix) SetIdentity() {
   c := NewScalar(matrix.ElementType(), 1.0)
@@ -224,6 +230,12 @@ func (matrix *SparseInt64Matrix) SetIdentity() {
     } else {
       it.Get().Reset()
     }
+  }
+  // the loop above visits only the entries that already exist, create
+  // the missing diagonal entries
+  n, m := matrix.Dims()
+  for i := 0; i < n && i < m; i++ {
+    matrix.AT(i, i).Set(c)
   }
 }
 func (matrix *SparseInt64Matrix) Reset() {
